@@ -154,3 +154,158 @@ def gen_projects(rng, tier, n_quick=1500, n_thorough=20000):
         fs = gen.gen_project(rng)
         cases.append(nm(f"r{i}", gen.render_project(fs, rng)))
     return cases
+
+
+# ------------------------------------------------------------------ C11
+def gen_C11(rng, tier):
+    cases = []
+    fixed = [
+        # several diagnostics on one line, out of emission order
+        [("a", "package p; import q.A; import q.B; parcelable P { Map<int, X1> a; X2[] b; List<X3> c; Map<X4,X5> d; }")],
+        [("a", "package p;import a.Foo;import b.Foo;import c.Foo;parcelable Foo;parcelable P{Foo f;}")],
+        [("a", "package p;interface X{}"), ("b", "package p;parcelable X{}"), ("c", "package p;enum X{A}"),
+         ("d", "package q;import p.X;interface I{void f(X a, in X b, out X c);}")],
+        [("a", "package p; interface I { void f( ; }"), ("b", "package p; parcelable {"), ("c", "")],
+        [("a", "package p;import q.Z;import q.Y;import q.Z;import q.W;parcelable Y;parcelable W;parcelable Y;interface I{}")],
+    ]
+    for i, f in enumerate(fixed):
+        cases.append(nm(f"fixed{i}", f))
+    n = 1200 if tier == "quick" else 15000
+    for i in range(n):
+        fs = gen.gen_project(rng)
+        files = gen.render_project(fs, rng)
+        # sometimes squeeze everything on one line, sometimes break a file so that it has no tree
+        if rng.random() < 0.3:
+            files = [(fid, " ".join(t.split())) if "//" not in t else (fid, t) for fid, t in files]
+        if rng.random() < 0.15 and files:
+            k = rng.randrange(len(files))
+            fid, t = files[k]
+            cut = rng.randrange(len(t) + 1)
+            files[k] = (fid, t[:cut] + rng.choice(["", "}", ";;", "@", "#"]) + (t[cut + 3:] if rng.random() < 0.5 else ""))
+        if rng.random() < 0.15 and len(files) > 1:
+            # duplicate key with another kind
+            fid, t = files[0]
+            d = dict(fs[0][1])
+            d2 = gen.gen_doc(rng, d["package"], d["name"], rng.choice(["interface", "parcelable", "enum"]))
+            files.append(("dup", gen.render(gen.tokens(d2), rng, "space")[0]))
+        cases.append(nm(f"r{i}", files))
+    return cases
+
+
+# ------------------------------------------------------------------ C12
+CONTENTS = ["package p;interface A{void f(in B b);}", "package p;parcelable B{int x;}",
+            "package p;import p.B;interface A{B g();}", "package p; interface {"]
+
+
+def gen_C12(rng, tier):
+    cases = []
+    ids = ["i0", "i1", "i2"]
+    alphabet = [("add", i, c) for i in ids for c in CONTENTS] + [("remove", i) for i in ids] + [("validate",)] + \
+               [("addfile", i, "ok", CONTENTS[1]) for i in ids[:1]] + [("addfile", ids[0], "missing"), ("addfile", ids[1], "bad", b"\xff\xfepackage")]
+    maxlen = 2 if tier == "quick" else 3
+    k = 0
+    import itertools
+    for L in range(1, maxlen + 1):
+        for seq in itertools.product(alphabet, repeat=L):
+            cases.append({"name": f"ex{k}", "ops": list(seq)})
+            k += 1
+    # from every reachable abstract state: prefix that builds the state, then every op (length up to 4 in total)
+    n = 400 if tier == "quick" else 6000
+    for i in range(n):
+        L = rng.choice([3, 4, 4, 6, 10, 20, 40])
+        fs = gen.gen_project(rng)
+        texts = [t for _, t in gen.render_project(fs, rng)] + CONTENTS
+        pids = ["f%d" % j for j in range(rng.randint(2, 6))]
+        ops = []
+        for _ in range(L):
+            r = rng.random()
+            if r < 0.45:
+                ops.append(("add", rng.choice(pids), rng.choice(texts)))
+            elif r < 0.62:
+                ops.append(("remove", rng.choice(pids + ["absent"])))
+            elif r < 0.8:
+                ops.append(("validate",))
+            elif r < 0.9:
+                ops.append(("addfile", rng.choice(pids), "ok", rng.choice(texts)))
+            elif r < 0.95:
+                ops.append(("addfile", rng.choice(pids), "missing"))
+            else:
+                ops.append(("addfile", rng.choice(pids), "bad", b"\xc3\x28 package p;"))
+        cases.append({"name": f"r{i}", "ops": ops})
+    return cases
+
+
+# ------------------------------------------------------------------ C13
+def gen_C13(rng, tier):
+    """pairs <k>_base / <k>_pN: the same target file `t` in two projects that agree on the facts t imports"""
+    cases = []
+    n = 250 if tier == "quick" else 3000
+    for i in range(n):
+        fs = gen.gen_project(rng)
+        if not fs:
+            continue
+        files = gen.render_project(fs, rng)
+        tgt_doc = fs[0][1]
+        tgt = files[0]
+        others = list(zip(fs[1:], files[1:]))
+        imported = set(tgt_doc["imports"])
+        base = [("t", tgt[1])] + [(fid, t) for (_, (fid, t)) in zip(fs[1:], files[1:])]
+        cases.append(nm(f"c{i}_base", base))
+        # p0: add an unrelated file
+        extra = gen.gen_doc(rng, "zz.unrelated", "Zz" + str(i), None)
+        cases.append(nm(f"c{i}_p0", base + [("zz", gen.render(gen.tokens(extra), rng, "space")[0])]))
+        # p1: remove a file that t does not import (and that does not share a key with an imported one)
+        keep = []
+        removed = False
+        for (fid, d), (_, text) in others:
+            key = d["package"] + "." + d["name"]
+            if not removed and key not in imported:
+                removed = True
+                continue
+            keep.append((fid, text))
+        cases.append(nm(f"c{i}_p1", [("t", tgt[1])] + keep))
+        # p2: rewrite body / imports / docs of every other file keeping package, name and kind
+        rew = []
+        for (fid, d), (_, text) in others:
+            d2 = gen.gen_doc(rng, d["package"], d["name"], d["kind"], None, [rng.choice(["x.Y", "p.Foo"])] if rng.random() < 0.5 else [])
+            rew.append((fid, gen.render(gen.tokens(d2), rng, rng.choice(["space", "wild"]))[0]))
+        cases.append(nm(f"c{i}_p2", [("t", tgt[1])] + rew))
+        # control: change the kind of an imported file (result MAY change; only counted)
+        ctl = []
+        for (fid, d), (_, text) in others:
+            key = d["package"] + "." + d["name"]
+            if key in imported:
+                kinds = [k for k in ["interface", "parcelable", "enum"] if k != d["kind"]]
+                d2 = gen.gen_doc(rng, d["package"], d["name"], rng.choice(kinds))
+                ctl.append((fid, gen.render(gen.tokens(d2), rng, "space")[0]))
+            else:
+                ctl.append((fid, text))
+        cases.append(nm(f"c{i}_ctl", [("t", tgt[1])] + ctl))
+    return cases
+
+
+def post_C13(cases, xs):
+    """compare the digest of file `t` between <k>_base and <k>_pN"""
+    h = {}
+    for name, chk, verdict, detail in xs:
+        if chk == "hash:t":
+            h[name] = detail
+    findings = []
+    stats = {"pairs": 0, "control_changed": 0, "controls": 0}
+    for name, v in h.items():
+        if name.endswith("_base"):
+            k = name[:-5]
+            for suffix in ("_p0", "_p1", "_p2"):
+                o = h.get(k + suffix)
+                if o is None:
+                    continue
+                stats["pairs"] += 1
+                if o != v:
+                    findings.append({"case": k + suffix, "kind": "impl", "check": "perturb", "partner": name,
+                                     "detail": f"result of file t differs between {name} and {k + suffix}"})
+            o = h.get(k + "_ctl")
+            if o is not None:
+                stats["controls"] += 1
+                if o != v:
+                    stats["control_changed"] += 1
+    return findings, stats
